@@ -22,12 +22,14 @@ enum Ev {
     Emit(usize),
 }
 
-const N_DESCR: usize = 2;
+const N_DESCR: usize = 3;
 const N_EMIT: usize = 6;
 
 fn describe(rec: &TcpRecorder, i: usize) {
     match i {
         0 => rec.describe_counter("c_m".into(), Some(Unit::Bytes), "counter help".into()),
+        // the same name described again, differently: a later client must get the description current when it connects
+        2 => rec.describe_counter("c_m".into(), Some(Unit::Count), "counter help, second edition".into()),
         _ => {
             rec.describe_gauge("g_m".into(), Some(Unit::Percent), "gauge help".into());
             rec.describe_histogram("h_m".into(), None, "hist help".into());
@@ -37,11 +39,24 @@ fn describe(rec: &TcpRecorder, i: usize) {
 fn expected_metadata(i: usize) -> Vec<Frame> {
     match i {
         0 => vec![Frame::Metadata { name: "c_m".into(), metric_type: 0, unit: Some("bytes".into()), description: Some("counter help".into()) }],
+        2 => vec![Frame::Metadata { name: "c_m".into(), metric_type: 0, unit: Some("count".into()), description: Some("counter help, second edition".into()) }],
         _ => vec![
             Frame::Metadata { name: "g_m".into(), metric_type: 1, unit: Some("percent".into()), description: Some("gauge help".into()) },
             Frame::Metadata { name: "h_m".into(), metric_type: 2, unit: None, description: Some("hist help".into()) },
         ],
     }
+}
+/// what a client connecting after these describes (in this order) must be sent: the latest description per name
+fn metadata_for(described: &[usize]) -> Vec<Frame> {
+    let mut latest: std::collections::BTreeMap<String, Frame> = Default::default();
+    for d in described {
+        for f in expected_metadata(*d) {
+            if let Frame::Metadata { name, .. } = &f {
+                latest.insert(name.clone(), f.clone());
+            }
+        }
+    }
+    latest.into_values().collect()
 }
 /// all six metric operations, with labels
 fn emit(rec: &TcpRecorder, i: usize, seqno: u64) {
@@ -242,7 +257,7 @@ fn run_history(h: &[Ev], cfg: &Config) -> Outcome {
             }
             Ev::Describe(d) => {
                 describe(&ex.rec, d);
-                if !described.contains(&d) {
+                {
                     described.push(d);
                 }
             }
@@ -265,12 +280,15 @@ fn run_history(h: &[Ev], cfg: &Config) -> Outcome {
     // final drain; before a "missing frame" verdict a long grace period: the exporter's sockets have Nagle's algorithm
     // on, so a frame already written by the exporter can sit in the kernel until a delayed ACK arrives (<= 200 ms)
     let t_end = Instant::now();
+    // with a small buffer the metadata frames queued at connect are themselves subject to drop-oldest: wait for as many
+    // as the queue can hold, not for all of them
+    let meta_cap = cfg.buffer.unwrap_or(usize::MAX);
     loop {
         for c in clients.iter_mut() {
             drain(c);
         }
         let complete = clients.iter().filter(|c| c.open).all(|c| match pbwire::split_stream(&c.buf) {
-            Ok((frames, 0)) => frames.iter().filter(|f| matches!(f, Frame::Metric { .. })).count() >= c.expected.len() && frames.iter().filter(|f| matches!(f, Frame::Metadata { .. })).count() >= c.metadata_at_connect.len(),
+            Ok((frames, 0)) => frames.iter().filter(|f| matches!(f, Frame::Metric { .. })).count() >= c.expected.len() && frames.iter().filter(|f| matches!(f, Frame::Metadata { .. })).count() >= metadata_for(&c.metadata_at_connect).len().min(meta_cap),
             Ok(_) => false,
             Err(_) => true,
         });
@@ -301,7 +319,7 @@ fn run_history(h: &[Ev], cfg: &Config) -> Outcome {
         }
         let mut got_meta: Vec<String> = frames[..n_meta].iter().map(|f| format!("{:?}", f)).collect();
         got_meta.sort();
-        let mut want_meta: Vec<String> = c.metadata_at_connect.iter().flat_map(|d| expected_metadata(*d)).map(|f| format!("{:?}", f)).collect();
+        let mut want_meta: Vec<String> = metadata_for(&c.metadata_at_connect).iter().map(|f| format!("{:?}", f)).collect();
         want_meta.sort();
         let metrics: Vec<&Frame> = frames[n_meta..].iter().collect();
         let want: Vec<Frame> = c.expected.iter().map(|(k, s)| expected_metric(*k, *s)).collect();
@@ -418,7 +436,7 @@ fn sweep(ctx: &Ctx, res: &mut PartResult, len: usize, nclients: usize, buffer: O
             }
         }
         if ctx.over_budget() || done > 60000 {
-            res.cap_hit = Some(if done > 60000 { "history cap per process".into() } else { "wall budget".into() });
+            res.cap_hit = Some(if done > 60000 { "history cap per process".into() } else { "budget (cpu time of the part)".into() });
             res.exhaustive = false;
             break;
         }
